@@ -249,6 +249,27 @@ def requests():
 
 def shard(a):
     res = core.Result()
+    if a['kind'] == 'sweep':
+        # every module once: a valid number in the presentations a user pastes (leading tab, trailing newline, lower case
+        # with spaces, the module's own format): info() calls compact()/format() of every accepting module unguarded
+        app = load_app()
+        for name in a['mods']:
+            p = gen.pool(name)
+            if not p:
+                continue
+            v = p[0]
+            m = core.number_modules()[name]
+            pres = ['\t' + v, v + '\n', ' ' + v.lower() + ' ']
+            if hasattr(m, 'format'):
+                f = core.out(m.format, v)
+                if f[0] == 'ok' and isinstance(f[1], str):
+                    pres.append('\r\n' + f[1])
+            for i, x in enumerate(pres):
+                qs = urllib.parse.urlencode({'number': x})
+                case = {'qs': qs, 'header': 'XMLHttpRequest' if i == 1 else None}
+                check_one(app, qs, case['header'], res, case)
+        del _apps[:]
+        return res
     if a['kind'] == 'req':
         core.drive(prop_req, requests(), a['n'], (a['seed'], 'C18', 'req', a['i']), res, shrink_skip=a['known'], max_shrink_buckets=3)
     else:
@@ -261,5 +282,7 @@ def run(ctx):
     core.number_modules()
     args = [{'shard': 'req%d' % i, 'kind': 'req', 'i': i, 'n': ctx.q(120, 4000), 'seed': ctx.seed, 'known': ctx.known_buckets} for i in range(12)]
     args += [{'shard': 'hist%d' % i, 'kind': 'hist', 'i': i, 'n': ctx.q(25, 800), 'maxlen': ctx.q(8, 30), 'seed': ctx.seed, 'known': ctx.known_buckets} for i in range(4)]
+    names = sorted(core.number_modules())
+    args += [{'shard': 'sweep%d' % i, 'kind': 'sweep', 'mods': names[i::16]} for i in range(16)]
     res = core.run_shards(shard, args)
     return core.finish(ctx, res, LEVEL, RULE, ASSUME, SUBS)
